@@ -434,9 +434,25 @@ func planFn(t *rapid.T, depth int) any {
 	return out
 }
 
+var soupTokens = []string{"[", "[", "]", "{", "{", "}", ":", ":", ",", ",", `"a"`, `"b"`, `"k"`, "1", "-2", "1.5e2", "0", "null", "true", "false", `"\u0041"`, "12345678901234567890", " ", "\n", "x", "+", "'s'", "(", ")", "//c\n"}
+
 func drawCase(t *rapid.T) Case {
 	switch rapid.IntRange(0, 9).Draw(t, "target") {
 	case 0, 1, 2:
+		if rapid.IntRange(0, 3).Draw(t, "soup") == 0 {
+			// token soup: any sequence of well formed tokens (the parsers build on a stack
+			// whose invariants only hold for sequences the grammar allows; a table cell that
+			// lets one more token through breaks them several tokens later)
+			n := rapid.IntRange(1, 10).Draw(t, "ntok")
+			var text []byte
+			for i := 0; i < n; i++ {
+				text = append(text, rapid.SampledFrom(soupTokens).Draw(t, "tok")...)
+				if rapid.IntRange(0, 3).Draw(t, "sp") == 0 {
+					text = append(text, ' ')
+				}
+			}
+			return Case{Target: rapid.SampledFrom([]string{"json", "json", "sen"}).Draw(t, "souptarget"), Input: text, Chunk: rapid.SampledFrom([]int{0, 0, 1, 2}).Draw(t, "chunk")}
+		}
 		text := gx.JSONText(t, gx.DefaultText)
 		if rapid.IntRange(0, 4).Draw(t, "mut") != 0 {
 			text = gx.Mutate(t, text)
